@@ -195,6 +195,44 @@ func lookupOrder(c *Ctx, r *Report) {
 						}
 					})
 					envOK = envOK && shr
+					// the other spelling: a counter that starts at len(env)-1 of the same (unchanged) slice and is
+					// decremented by one on every way round the loop
+					idxV, off := ia.Index, int64(0)
+					if b, ok := idxV.(*ssa.BinOp); ok {
+						if k, isK := ConstInt(b.Y); isK && (b.Op == token.SUB || b.Op == token.ADD) {
+							idxV = b.X
+							off = k
+							if b.Op == token.SUB {
+								off = -k
+							}
+						}
+					}
+					if phi, isPhi := idxV.(*ssa.Phi); isPhi && !envOK {
+						init, dec, other := false, false, false
+						for i, e := range phi.Edges {
+							back := phi.Block().Dominates(phi.Block().Preds[i])
+							switch {
+							case !back && off == 0 && isLenMinus1(e, ia.X):
+								init = true
+							case !back && off == -1 && isLenOf(e, ia.X):
+								init = true // counter of what is left: starts at len(env), reads env[counter-1]
+							case back:
+								if b, ok := e.(*ssa.BinOp); ok && b.X == ssa.Value(phi) {
+									if k, isK := ConstInt(b.Y); isK && (b.Op == token.SUB && k == 1 || b.Op == token.ADD && k == -1) {
+										dec = true
+										continue
+									}
+								}
+								other = true
+							default:
+								other = true
+							}
+						}
+						if init && dec && !other {
+							envOK = true
+							envDesc = ""
+						}
+					}
 				}
 			}
 		}
@@ -299,4 +337,13 @@ func dynIdentityRule(c *Ctx, r *Report) {
 	if n == 0 {
 		r.add("R02g", "ucfg.newDyn", "cfgDynamic allocated", c.Pos(ctor.Pos()), Undecided, true, "no allocation of cfgDynamic found")
 	}
+}
+
+// isLenOf: v is len(slice) of the same slice value.
+func isLenOf(v, slice ssa.Value) bool {
+	call, ok := v.(*ssa.Call)
+	if !ok || BuiltinName(call) != "len" || len(call.Call.Args) != 1 {
+		return false
+	}
+	return call.Call.Args[0] == slice || SameValue(call.Call.Args[0], slice)
 }
